@@ -90,7 +90,7 @@ func ReadUtcTime(reader Asn1Reader) (*time.Time, error) {
 	if err != nil {
 		return nil, err
 	}
-	lastUpdateUtcBytes, err := ReadExpectedBytes(reader, int(lastUpdateUtcTag.Length.Length.Int64()))
+	lastUpdateUtcBytes, err := readValueBytesWithLimit(reader, lastUpdateUtcTag)
 	if err != nil {
 		return nil, err
 	}
@@ -110,7 +110,7 @@ func ParseBitString(reader Asn1Reader) (*BitString, error) {
 	if err != nil {
 		return nil, err
 	}
-	readBytes, err := ReadExpectedBytes(reader, int(tagLength.Length.Length.Int64()))
+	readBytes, err := readValueBytesWithLimit(reader, tagLength)
 	if err != nil {
 		return nil, err
 	}
@@ -138,7 +138,7 @@ func ParseOctetString(reader Asn1Reader) (ret []byte, err error) {
 	if err != nil {
 		return nil, err
 	}
-	return ReadExpectedBytes(reader, int(tagLength.Length.Length.Int64()))
+	return readValueBytesWithLimit(reader, tagLength)
 }
 
 func ParseUTCTime(bytes []byte) (*time.Time, error) {
@@ -184,6 +184,19 @@ func ReadStruct(reader Asn1Reader, value interface{}) error {
 		return errors.New("trailing data after asn1 object")
 	}
 	return nil
+}
+
+// maxValueLength limit for values of primitive types which are read completely into memory
+const maxValueLength = 81920
+
+// readValueBytesWithLimit reads the value of a tlv record. The length is taken from the input, so it is limited
+// before memory is allocated for it (it might not even fit into an int)
+func readValueBytesWithLimit(reader Asn1Reader, tagLength *TagLength) ([]byte, error) {
+	err := ExpectLengthNotGreater(big.NewInt(maxValueLength), &tagLength.Length.Length)
+	if err != nil {
+		return nil, err
+	}
+	return ReadExpectedBytes(reader, int(tagLength.Length.Length.Int64()))
 }
 
 func ReadTVLBytesWithLimit(reader Asn1Reader, tagLength TagLength, maxLength int64) ([]byte, error) {
@@ -378,7 +391,7 @@ func ReadBigInt(reader Asn1Reader) (*big.Int, error) {
 	if err != nil {
 		return nil, err
 	}
-	readBytes, err := ReadExpectedBytes(reader, int(tagLength.CalculateValueLength().Int64()))
+	readBytes, err := readValueBytesWithLimit(reader, tagLength)
 	if err != nil {
 		return nil, err
 	}
